@@ -80,6 +80,7 @@ pub fn for_each_grammar(slices: &[Slice], w: &mut Worker, stats: &mut Stats, mut
     let mut dedup = gram::Dedup::default();
     let mut index: u64 = 0;
     for sl in slices {
+        let slice_started = std::time::Instant::now();
         for fr in &sl.frames {
             let mut alpha = fr.alphabet();
             for c in &sl.extra_alpha {
@@ -141,6 +142,8 @@ pub fn for_each_grammar(slices: &[Slice], w: &mut Worker, stats: &mut Stats, mut
                 }
             }
         }
+        // where the time goes (summed over the shards: CPU milliseconds per slice)
+        stats.add(&format!("cpu_ms.{}", sl.name), slice_started.elapsed().as_millis() as u64);
     }
 }
 
@@ -227,7 +230,9 @@ pub fn standard(quick: bool, scale: i32) -> Vec<Slice> {
         whole_grammars: false,
         extra_alpha: vec![],
         name: "redexes".into(),
-        frames: gram::frames(!quick, false).into_iter().filter(|f| quick || f.sdef <= 2).collect(),
+        // scale <= -2 (C15's quick tier, where this slice took three quarters of the time): one plane
+        // (no stack prelude) and the remaining axis of the frame cube instead of its three planes
+        frames: gram::frames(!quick, false).into_iter().filter(|f| quick || f.sdef <= 2).filter(|f| !(quick && scale <= -2) || f.sdef == 0 || (f.ws == 0 && f.ty == 0)).collect(),
         bodies: Rc::new(redex),
         len: if quick { 4 } else { 5 },
         len4: if quick { 3 } else { 4 },
